@@ -130,6 +130,9 @@ pub enum Signer {
     Garbage,
     Empty,
     Truncated,
+    /// the attacker's key j, with bytes appended to the 64-byte signature (recovery ids 0 / 1 / 27 / 28
+    /// as other signature formats carry them, two zero bytes, an arbitrary byte)
+    AdvExtended(u8, u8),
 }
 
 #[derive(Clone, Copy, Debug, PartialEq, Eq, Hash, Serialize, Deserialize)]
@@ -213,6 +216,8 @@ pub enum Op {
     /// an ordinary message packet in honest peer `peer`'s name, presented from that peer's address to
     /// node `to`, encrypted under a key anybody can guess (0: all-zero, 1: all-0xff, 2: 0x01..0x10)
     GuessedKeyMessage { peer: u8, to: u8, key: u8, body: ForgedBody },
+    /// re-injection of the nth-newest handshake packet a node emitted (0 = the newest)
+    ReplayHandshake { nth: u8, from: AddrSel },
 }
 
 #[derive(Clone, Copy, Debug, PartialEq, Eq, Hash, Serialize, Deserialize)]
